@@ -207,12 +207,10 @@ class t2listing(object):
         self._file.seek(self._fullpos[i])
         self._index = i
         if self._index < 0: self._index += self.num_fulltimes
-        self._tables_read = set()
-        self.read_tables()
         # a table that is not printed at this time holds no data (rather than
         # the data of whichever time was visited before):
-        for name, table in self._table.items():
-            if name not in self._tables_read: table._data[:] = np.nan
+        for table in self._table.values(): table._data[:] = np.nan
+        self.read_tables()
     index = property(get_index,set_index)
 
     def get_time(self): return self._time
@@ -940,7 +938,6 @@ class t2listing(object):
                 tablename += str(nelt_tables)
 
     def read_table_AUTOUGH2(self, tablename):
-        self._tables_read.add(tablename)
         fmt = self._table[tablename].row_format
         keyword = tablename[0].upper()*5
         self.skip_to_blank()
@@ -982,7 +979,6 @@ class t2listing(object):
             fmt['values'] = self.parse_table_line(line, fmt['values'][0], table.column_name)
 
     def read_table_TOUGH2(self, tablename):
-        self._tables_read.add(tablename)
         table = self._table[tablename]
         ncols = table.num_columns
         fmt = table.row_format
